@@ -1,6 +1,6 @@
 #!/bin/bash
 # usage: tools/try_patch.sh <patch.diff> <prop> [<prop>...]   — run checks against a patched scratch copy of /repo
-P=$1; shift
+P=$(readlink -f "$1"); shift
 S=$(mktemp -d /var/tmp/uflow-try.XXXXXX)
 rsync -a --exclude target --exclude .git /repo/ $S/repo/
 if ! patch -p1 -s -d $S/repo -i "$P"; then echo "PATCH FAILED"; rm -rf $S; exit 3; fi
